@@ -156,6 +156,8 @@ def run_config(ctx, prog, features, label='default'):
                     verdict = ('M-' + m['id'], m['reason'] + ' (manual, reviewed; not re-validated automatically)')
                     ctx.trust('manual discharge %s: %s' % (m['id'], m['reason']))
                     break
+        if verdict is None:
+            verdict = discharge_in_callers(ctx, prog, lem, manual, site)
         if verdict:
             n_dis += 1
             by_rule[verdict[0]] = by_rule.get(verdict[0], 0) + 1
@@ -174,6 +176,101 @@ def run_config(ctx, prog, features, label='default'):
     ctx.counters[pre + 'discharged'] = n_dis
     ctx.counters[pre + 'by_rule'] = by_rule
     lem.report()
+
+
+def _direct_callers(prog, h):
+    """functions that call h directly; None when h is also used as a value (fn item), in which case its callers are not all known"""
+    from mirlib import op_const
+    me = short(h.path)
+    out = []
+    for g in prog.fns:
+        for blk in g.blocks:
+            for st in blk['stmts']:
+                if st['k'] == 'assign':
+                    rv = st['rv']
+                    for o in [rv.get('op'), rv.get('a'), rv.get('b')] + list(rv.get('ops') or []):
+                        c = op_const(o) if isinstance(o, dict) else None
+                        if c and c.get('k') == 'fn' and short(c.get('def') or '') == me:
+                            return None
+        for b, t in g.calls():
+            for a in t['args']:
+                c = op_const(a)
+                if c and c.get('k') == 'fn' and short(c.get('def') or '') == me:
+                    return None
+            if t['callee'].get('local') and short(t['callee']['def']) == me and g not in out:
+                out.append(g)
+    return out
+
+
+def discharge_in_callers(ctx, prog, lem, manual, site, max_chain=4):
+    """A site inside a crate-private helper that no rule discharges there is re-examined in the context of its callers: the helper
+    (and, if needed, the private functions above it) is inlined at MIR level into each caller and the same guard rules and manual
+    entries are tried on the inlined body. Every call chain must discharge every instance of the site. This makes a discharge
+    independent of whether the guarded code was moved into a helper function."""
+    from mirlib import inline_calls
+    H = site['fn']
+
+    def private(f):
+        return f.kind in ('Fn', 'AssocFn') and str(f.j.get('vis') or '').startswith('Restricted')
+    if not private(H):
+        return None
+    first = _direct_callers(prog, H)
+    if not first:
+        return None
+    chains = [[g, H] for g in first]
+    reasons = []
+    n_ctx = 0
+    while chains:
+        chain = chains.pop()
+        top = chain[0]
+        names = {short(c.path) for c in chain[1:]}
+        try:
+            inl = inline_calls(prog, top, lambda h, t, names=names: short(h.path) in names, max_rounds=len(chain))
+        except Exception as e:
+            return None
+        inst = [e for e in inl.j.get('inlined', []) if short(e['helper']) == short(H.path)]
+        if not inst:
+            return None
+        all_ok = True
+        for e in inst:
+            blk = e['block_base'] + site['block']
+            s2 = dict(site, fn=inl, block=blk, term=inl.blocks[blk]['term'])
+            v = None
+            for g in GUARDS:
+                try:
+                    r = g(ctx, prog, lem, s2)
+                except Exception:
+                    r = None
+                if r:
+                    v = (g.__name__, r)
+                    break
+            if v is None:
+                for m in manual:
+                    if m['function'] == short(top.path) and m['kind'] == site['kind']:
+                        v = ('M-' + m['id'], m['reason'] + ' (manual, reviewed; not re-validated automatically)')
+                        ctx.trust('manual discharge %s: %s' % (m['id'], m['reason']))
+                        break
+            if v is None:
+                all_ok = False
+                break
+            reasons.append(v)
+        if all_ok:
+            n_ctx += 1
+            continue
+        # not discharged in this context: climb one level, if the top is itself a private helper
+        if len(chain) >= max_chain or not private(top):
+            return None
+        ups = _direct_callers(prog, top)
+        if not ups:
+            return None
+        for g in ups:
+            if g in chain:
+                return None
+            chains.append([g] + chain)
+    if not reasons:
+        return None
+    rule = reasons[0][0]
+    return (rule, 'in the context of its caller(s) (%d call context(s), helper inlined): %s' % (n_ctx, reasons[0][1]))
 
 
 def fixture_control(ctx):
